@@ -200,3 +200,63 @@ func HDollar(n int, k int) {
 	vAssert(t.val == s[k+2:k+2+vClip(clen)], "token value is the content")
 	vCover("checked")
 }
+
+// HStrLongT: literal forms with a long body (L bytes from a two-letter set) around the 31/32-byte clipping boundary,
+// followed by `post` free bytes: content length clipped, resume offset right after the real terminator.
+// form 0: '..' 1: ".." 2: `..` 3: q'(..)' 4: $$..$$ 5: $t$..$t$ 6: n'..' 7: @'..' 8: unterminated '.. 9: nq'[..]'
+func HStrLongT(form int, L int, post int) {
+	body := ""
+	for i := 0; i < L; i++ {
+		body += vB(vByteIn("ac"))
+	}
+	var pre, suf string
+	switch form {
+	case 0:
+		pre, suf = "'", "'"
+	case 1:
+		pre, suf = "\"", "\""
+	case 2:
+		pre, suf = "`", "`"
+	case 3:
+		pre, suf = "q'(", ")'"
+	case 4:
+		pre, suf = "$$", "$$"
+	case 5:
+		pre, suf = "$t$", "$t$"
+	case 6:
+		pre, suf = "n'", "'"
+	case 7:
+		pre, suf = "@'", "'"
+	case 8:
+		pre, suf = "'", ""
+	case 9:
+		pre, suf = "nq'[", "]'"
+	}
+	tail := vNondetString(post)
+	if post > 0 && suf != "" {
+		// keep the terminator a real terminator: not doubled by the next byte
+		vAssume(tail[0] != suf[len(suf)-1])
+	}
+	if form == 8 {
+		for i := 0; i < post; i++ {
+			vAssume(tail[i] != '\'')
+		}
+	}
+	s := pre + body + suf + tail
+	st := new(sqliState)
+	sqliInit(st, s, sqliFlagQuoteNone|sqliFlagSQLAnsi)
+	more := st.tokenize()
+	vAssert(more, "a token is produced")
+	t := st.current
+	wantLen := L
+	wantNext := len(pre) + L + len(suf)
+	if form == 8 {
+		wantLen = L + post
+		wantNext = len(s)
+	}
+	vAssert(t.pos == len(pre), "content offset")
+	vAssert(t.len == vClip(wantLen), "content length clipped to 31")
+	vAssert(st.pos == wantNext, "resume offset right after the terminator")
+	vAssert(t.val == s[len(pre):len(pre)+vClip(wantLen)], "token value is the content")
+	vCover("checked")
+}
